@@ -27,16 +27,85 @@ def vb_padded(v, nbytes):
     return bytes(out)
 
 
-class _RecR(content.R):
+_BaseR = content.R
+
+
+class _RecR(_BaseR):
     fields = None
+    ints = None          # every packed-integer field: (offset, size in bytes, value, 32 | 64, is a string length)
+    _in_bs = False
+
+    def b32(self):
+        start = self.p
+        v = _BaseR.b32(self)
+        if _RecR.ints is not None:
+            _RecR.ints.append((start, self.p - start, v, 32, _RecR._in_bs))
+        return v
+
+    def b64(self):
+        start = self.p
+        v = _BaseR.b64(self)
+        if _RecR.ints is not None:
+            _RecR.ints.append((start, self.p - start, v, 64, False))
+        return v
 
     def bs(self):
         start = self.p
-        n = self.b32()
+        _RecR._in_bs = True
+        try:
+            n = self.b32()
+        finally:
+            _RecR._in_bs = False
         vend = self.p
         v = self.take(n)
         _RecR.fields.append((start, vend - start, n))
         return v
+
+
+def int_fields(data):
+    """[(offset, size, value, width, is_string_length)] for every packed integer the grammar reads: mapping indexes, sizes, times,
+    inodes, block-run positions and counts, hole / info run counts and flags, map positions, parity totals, split counts, ..."""
+    _RecR.fields = []
+    _RecR.ints = []
+    saved = content.R
+    content.R = _RecR
+    try:
+        content.parse(data)
+    finally:
+        content.R = saved
+    r = list(_RecR.ints)
+    _RecR.ints = None
+    return r
+
+
+def vb5(v):
+    """v mod 2^35 as exactly five bytes (sgetb32 drops what is shifted above bit 31)"""
+    return bytes([(v >> (7 * i)) & 0x7f for i in range(4)] + [0x80 | ((v >> 28) & 0x7f)])
+
+
+def int_encodings(width):
+    encs = [('0', vb(0)), ('1', vb(1)), ('0x7FFFFFFF', vb(0x7FFFFFFF)), ('0xFFFFFFFE', vb(0xFFFFFFFE)), ('0xFFFFFFFF', vb(0xFFFFFFFF)),
+            ('0xFFFFFFFF/7f7f7f7f8f', bytes([0x7f, 0x7f, 0x7f, 0x7f, 0x8f])), ('2^32 in 5 bytes', vb5(1 << 32)), ('2^32+1 in 5 bytes', vb5((1 << 32) + 1))]
+    if width == 64:
+        encs += [('2^63-1', vb((1 << 63) - 1)), ('2^63', vb(1 << 63)), ('2^64-1', vb((1 << 64) - 1))]
+    return encs
+
+
+def int_field_mutants(data, strings_too=False):
+    """structure-aware multi-byte damage: every packed-integer field of the file replaced by boundary encodings, (a) spliced in place of
+    the old encoding (the bytes that follow keep their meaning) and (b) written over the bytes at the field's offset (same file length:
+    the bytes that follow are eaten, as in an in-place overwrite)"""
+    ms = []
+    for (off, sz, val, width, is_len) in int_fields(data):
+        if is_len and not strings_too:
+            continue            # string lengths have their own family (boundary_mutants)
+        for label, enc in int_encodings(width):
+            a = data[:off] + enc + data[off + sz:]
+            b = (data[:off] + enc + data[off + len(enc):])[:max(len(data), off + len(enc))]
+            for how, m in (('spliced', a), ('overwritten', b)):
+                if m != data:
+                    ms.append(('raw', m, 'integer field at offset %d (%d-bit, value %d): %s, %s' % (off, width, val, label, how)))
+    return ms
 
 
 def string_fields(data):
@@ -164,6 +233,11 @@ def features(data):
                     fs.add('info_' + k)
     if len({(None if i is None else (i['time'], i['bad'], i['rehash'], i['justsynced'])) for i in st['info']}) > 1:
         fs.add('several_info_runs')
+    for d in st['disks'].values():
+        for f in d['files']:
+            pos = [b[1] for b in f['blocks']]
+            if any(pos[i + 1] != pos[i] + 1 for i in range(len(pos) - 1)):
+                fs.add('file_in_several_block_runs')
     if data[:8] == b'SNAPCNT1':
         fs.add('legacy_m_map_and_n_blocks')
     return fs
@@ -173,7 +247,7 @@ REQUIRED_FEATURES = ['format_v1', 'format_v2', 'format_v3', 'hashsize_16', 'hash
                      'C_prevhash_record', 'map_with_uuid', 'map_without_uuid', 'P_parity_record', 'Q_split_record', 'Q_split_with_uuid',
                      'Q_several_splits', 'file_record', 'zero_size_file', 'name_near_PATH_MAX', 'block_BLK', 'block_CHG', 'block_REP',
                      'hardlink_record', 'symlink_record', 'dir_record', 'hole_record_with_deleted_hashes', 'info_run', 'info_run_without_info',
-                     'info_bad', 'info_rehash', 'info_justsynced', 'several_info_runs', 'legacy_m_map_and_n_blocks']
+                     'info_bad', 'info_rehash', 'info_justsynced', 'several_info_runs', 'legacy_m_map_and_n_blocks', 'file_in_several_block_runs']
 
 
 def add_split_uuids(data):
